@@ -822,3 +822,144 @@ func reachableAfter(a, b ssa.Instruction) bool {
 	}
 	return false
 }
+
+// accessPath resolves a loaded value or an address to its root object and the chain of field
+// names leading to it ("[]" marks an element access). Pointer dereferences are transparent.
+// A spilled parameter (Alloc initialised once from a Parameter) resolves to the Parameter;
+// captured variables resolve to the variable of the enclosing function.
+func accessPath(v ssa.Value) (ssa.Value, []string) {
+	for depth := 0; depth < 32; depth++ {
+		switch x := v.(type) {
+		case *ssa.UnOp:
+			if x.Op != token.MUL {
+				return v, nil
+			}
+			return accessPath(x.X)
+		case *ssa.FieldAddr:
+			r, p := accessPath(x.X)
+			f := fieldOf(x.X.Type(), x.Field)
+			if f == nil {
+				return v, nil
+			}
+			return r, append(p, f.Name())
+		case *ssa.Field:
+			r, p := accessPath(x.X)
+			f := fieldOf(x.X.Type(), x.Field)
+			if f == nil {
+				return v, nil
+			}
+			return r, append(p, f.Name())
+		case *ssa.IndexAddr:
+			r, p := accessPath(x.X)
+			return r, append(p, "[]")
+		case *ssa.FreeVar:
+			if b := freeVarBinding(x); b != nil {
+				v = b
+				continue
+			}
+			return v, nil
+		case *ssa.Alloc:
+			// spilled parameter?
+			var stored []ssa.Value
+			if refs := x.Referrers(); refs != nil {
+				for _, rf := range *refs {
+					if st, ok := rf.(*ssa.Store); ok && st.Addr == x {
+						stored = append(stored, st.Val)
+					}
+				}
+			}
+			if len(stored) == 1 {
+				if p, ok := stored[0].(*ssa.Parameter); ok {
+					return p, nil
+				}
+			}
+			return v, nil
+		case *ssa.ChangeType:
+			v = x.X
+		case *ssa.MakeInterface:
+			v = x.X
+		case *ssa.ChangeInterface:
+			v = x.X
+		default:
+			return v, nil
+		}
+	}
+	return v, nil
+}
+
+func pathIs(v ssa.Value, names ...string) bool {
+	_, p := accessPath(v)
+	if len(p) != len(names) {
+		return false
+	}
+	for i := range p {
+		if p[i] != names[i] {
+			return false
+		}
+	}
+	return true
+}
+
+func pathEndsWith(v ssa.Value, names ...string) bool {
+	_, p := accessPath(v)
+	if len(p) < len(names) {
+		return false
+	}
+	p = p[len(p)-len(names):]
+	for i := range p {
+		if p[i] != names[i] {
+			return false
+		}
+	}
+	return true
+}
+
+// lenOf: v is len(x); returns x.
+func lenOf(v ssa.Value) ssa.Value {
+	c, ok := v.(*ssa.Call)
+	if !ok {
+		return nil
+	}
+	b, ok := c.Call.Value.(*ssa.Builtin)
+	if !ok || b.Name() != "len" {
+		return nil
+	}
+	return c.Call.Args[0]
+}
+
+// lenFact classifies a comparison fact about len(x): returns x and "empty" / "nonempty", or nil.
+func lenFact(f Fact) (ssa.Value, string) {
+	if f.Kind != FCmp {
+		return nil, ""
+	}
+	x, y, op := f.X, f.Y, f.Op
+	if lenOf(y) != nil && lenOf(x) == nil {
+		// c OP len(v)  ->  len(v) OP' c
+		x, y = y, x
+		switch op {
+		case token.LSS:
+			op = token.GTR
+		case token.GTR:
+			op = token.LSS
+		case token.LEQ:
+			op = token.GEQ
+		case token.GEQ:
+			op = token.LEQ
+		}
+	}
+	l := lenOf(x)
+	if l == nil {
+		return nil, ""
+	}
+	c, ok := constInt(y)
+	if !ok {
+		return nil, ""
+	}
+	switch {
+	case (op == token.EQL && c == 0) || (op == token.LEQ && c == 0) || (op == token.LSS && c == 1):
+		return l, "empty"
+	case (op == token.NEQ && c == 0) || (op == token.GTR && c == 0) || (op == token.GEQ && c == 1):
+		return l, "nonempty"
+	}
+	return nil, ""
+}
